@@ -87,6 +87,7 @@ type Ctx struct {
 	recDefs    map[string]*recDef
 	recBuilding map[string]*recDef
 	typePos    token.Pos // a position inside the function under contract (resolves its type parameters)
+	closedHeap bool      // emit the closed-heap axioms (only contracts that reason about freshness need them)
 }
 
 // addCand registers an integer-valued program variable as an instantiation
@@ -278,7 +279,14 @@ func intInfo(t types.Type) (width int, signed bool, ok bool) {
 }
 
 func typeName(t types.Type) string {
-	s := types.TypeString(t, func(p *types.Package) string { return p.Name() })
+	s := types.TypeString(t, func(p *types.Package) string {
+		// runtime-internal twins of public packages (internal/sync vs sync) get a
+		// distinct prefix; everything else is named by its package name
+		if strings.HasPrefix(p.Path(), "internal/") {
+			return "i" + p.Name()
+		}
+		return p.Name()
+	})
 	return smtIdent(s)
 }
 
@@ -789,7 +797,7 @@ func (c *Ctx) fieldHeap(s State, st types.Type, u *types.Struct, i int) (string,
 // stored in a field points below the allocation frontier of the entry state
 // (so objects allocated later are distinct from everything reachable before).
 func (c *Ctx) closedHeapAxiom(name string, ft types.Type) {
-	if c.declared["closed:"+name] || !c.declared[name+"@0"] || !c.declared["$alloc@0"] {
+	if !c.closedHeap || c.declared["closed:"+name] || !c.declared[name+"@0"] || !c.declared["$alloc@0"] {
 		return
 	}
 	var body func(v *Term) *Term
